@@ -561,6 +561,7 @@ func c18Elements() (elems []c18Packed, rule string) {
 		"S1: every sequence (up to authority renaming) of valid precommits for A/A1/B incl. repetitions and equivocations, (n,max length) in %v. "+
 		"S2: every such sequence in which 1..dmax entries are deviant (badsig/otherround/otherset/wrong-number/valid-signature-of-another-block (thorough: also prevote-stage) for blocks %v, valid for the ancestor G, valid for an unknown block, valid by a non-authority), (n,max length,dmax) in %v. "+
 		"S3: n=1..4, honest full commit and the commit one entry short, with each message-level deviation %v. "+
+		"S4: one Service accepts the honest commit of set 0 (n=1..4 keys), passes the real authority set change to set 1 (m=1..4 keys, overlapping set 0 or disjoint) and receives a set-1 commit signed by all keys of set 0: only keys of set 1 count. "+
 		"Non-trivial = distinct (n, target class, per-authority behaviour multiset, verdict) classes.",
 		s1, func() []string {
 			var s []string
@@ -732,6 +733,82 @@ func c18Check(r *verifmc.Report, sink *c18Sink, order int, t *testing.T, e *c18E
 	}
 }
 
+// c18AfterSetChange (space S4): one long-lived Service accepts the honest full commit of authority set 0
+// (n keys), goes through an authority set change (set 1 = m keys starting at key `off`: overlapping or
+// disjoint) by the real initiateRound -> updateAuthorities, and then receives a set-1 commit for A1
+// signed by ALL keys of the PREVIOUS set.  Only the keys that are also in set 1 count.
+func c18AfterSetChange(r *verifmc.Report) {
+	tree := c18Tree()
+	mkCommit := func(target int, set uint64, keys []int) *CommitMessage {
+		cm := &CommitMessage{Round: 1, SetID: set, Vote: tree.vote(target)}
+		for _, k := range keys {
+			cm.Precommits = append(cm.Precommits, tree.vote(target))
+			cm.AuthData = append(cm.AuthData, AuthData{Signature: c21Sign(k, precommit, tree.vote(target), 1, set), AuthorityID: c21PubBytes(k)})
+		}
+		return cm
+	}
+	for n := 1; n <= 4; n++ {
+		for m := 1; m <= 4; m++ {
+			for off := 1; off <= n; off++ {
+				r.Add("evaluations", 1)
+				r.Add("evaluations_S4", 1)
+				label := fmt.Sprintf("S4 set0=keys[0..%d) set1=keys[%d..%d)", n, off, off+m)
+				nd := c21NewNode(tree, c18G, n, 0)
+				if err := nd.svc.initiateRound(); err != nil {
+					panic(err)
+				}
+				var old, next []int
+				for k := 0; k < n; k++ {
+					old = append(old, k)
+				}
+				var voters []Voter
+				overlap := 0
+				for k := off; k < off+m; k++ {
+					next = append(next, k)
+					voters = append(voters, c21Voters(k + 1)[k])
+					if k < n {
+						overlap++
+					}
+				}
+				if err := nd.svc.handleCommitMessage(mkCommit(c18A, 0, old)); err != nil || len(nd.bs.c21FinalCalls()) != 1 {
+					r.Outcome("S4:honest-commit-of-set-0-not-accepted (not judged)")
+					continue
+				}
+				nd.gs.mu.Lock()
+				nd.gs.setID = 1
+				nd.gs.auths[1] = voters
+				nd.gs.mu.Unlock()
+				if err := nd.svc.initiateRound(); err != nil {
+					r.Outcome("S4:round-after-set-change-not-opened (not judged)")
+					continue
+				}
+				err := nd.svc.handleCommitMessage(mkCommit(c18A1, 1, old))
+				fin := len(nd.bs.c21FinalCalls()) > 1
+				switch {
+				case fin && 3*overlap <= 2*m:
+					r.Outcome("S4:previous-set-commit:finalised|short")
+					r.Violate("commit-finalises-below-supermajority:signed-by-the-previous-authority-set",
+						fmt.Sprintf("%s: after the change to set 1 a commit for A1 signed by the %d keys of set 0 finalises A1 (err=%v) although only %d of the %d current authorities signed it", label, n, err, overlap, m),
+						map[string]any{"n": n, "m": m, "off": off})
+					continue
+				case fin:
+					r.Outcome("S4:previous-set-commit:finalised|supermajority-by-overlap")
+					continue
+				default:
+					r.Outcome("S4:previous-set-commit:rejected")
+				}
+				_ = nd.svc.handleCommitMessage(mkCommit(c18A1, 1, next))
+				if len(nd.bs.c21FinalCalls()) > 1 {
+					r.Outcome("S4:current-set-commit:finalised")
+					r.Distinct(label)
+				} else {
+					r.Outcome("S4:current-set-commit:rejected (not judged)")
+				}
+			}
+		}
+	}
+}
+
 func TestVerif_C18(t *testing.T) {
 	r := verifmc.NewReport("C18", "commit-supermajority", "exploration")
 	defer r.Write()
@@ -774,6 +851,7 @@ func TestVerif_C18(t *testing.T) {
 		sink.Violate("harness-panic", e, i, func() (string, any) { return msg, map[string]any{"elem": e} })
 	})
 	sink.flush(r)
+	c18AfterSetChange(r)
 	// every violation kept in the report must reproduce (5x)
 	for _, v := range r.Violations {
 		m, ok := v.Replay.(map[string]any)
